@@ -8,7 +8,7 @@ NT = set("stop-with-processor-pending,stop-with-commit-in-flight,stop-with-reply
 
 
 class Eng(cons.CONSEngine):
-    MACROS = ["steady", "asyncoverlap", "commitretry", "stopmid", "stopmid", "shutdownmid", "shutdownmid", "shutdownmid"]
+    MACROS = ["steady", "asyncoverlap", "commitretry", "stopmid", "stopmid", "shutdownmid", "shutdownmid", "shutdownmultiblock", "shutdownmultiblock"]
     MACRO_ONE_IN = 4
 
     def nontrivial(self):
